@@ -92,6 +92,7 @@ def parse_log(out):
                 for item in f[3:]:
                     d = dict(kv.split("=", 1) for kv in item.split(",") if "=" in kv)
                     d["uid"] = unesc(d.get("uid", ""))
+                    d["cmd"] = unesc(d.get("cmd", ""))
                     tasks[d["uid"]] = d
                 ev.append(("ARMED", float(f[1]), tasks))
             elif k == "STALL":
